@@ -432,11 +432,26 @@ def e2e(ctx, variant, found):
         ctx.harness(["c06-e2e", "-in", b1, "-out", r1, "-naddr", "2", "-long", "0", "-shortms", "200"], timeout=300)
         rr = kit.read_ndjson(r1)[0]
         first, again = art["observed"][-1], (rr.get("obs") or [{}])[-1]
-        same = all(first.get(k) == again.get(k) for k in ("backend", "established", "clientSaw"))
-        if sig.startswith("least-conn") and len(rr.get("obs") or []) > 1:
-            same = same and art["observed"][-2].get("real") == rr["obs"][-2].get("real")
+        # the property verdict of the last step is evaluated again on the re-execution (not the raw observation: a relay
+        # through a stale object whose removal latch is closed is set up and torn down at once, so whether the client
+        # still gets the backend's answer, or the backend the token, differs from run to run - the connection is not
+        # properly relayed to a usable host either way)
+        st = art["steps"][-1]
+        refusing = {}
+        for x in art["steps"]:
+            if x["op"] == "Refuse":
+                refusing[x["a"]] = bool(x["refusing"])
+        got, allowed = again.get("backend", 0), st.get("allowed") or []
+        same = (st["op"] == "Conn" and (
+            (got != 0 and got not in allowed)
+            or (got == 0 and bool(allowed) and not any(refusing.get(a) for a in allowed))
+            or (got != 0 and not again.get("established"))))
+        if sig.startswith("least-conn") and st["op"] == "Conn" and len(rr.get("obs") or []) > 1:
+            before = rr["obs"][-2].get("real") or [0, 0]
+            other = st["h2a"] if got == st["h1a"] else st["h1a"]
+            same = got in (st["h1a"], st["h2a"]) and st["h1a"] != st["h2a"] and before[got - 1] > before[other - 1]
         if rr.get("err") or not same:
-            ctx.notes.append("%s: not reproduced when re-executed (flaky-inconclusive, not reported): first %s, again %s"
+            ctx.notes.append("%s: the re-execution of the behaviour did not violate the property again (flaky-inconclusive, not reported): first %s, again %s"
                              % (sig, first, rr.get("err") or again))
             del found[sig]
     # ---- code -> spec
